@@ -55,6 +55,23 @@ def _install_shim():
 
 _install_shim()
 
+
+def _install_math_models():
+    """pure-Python models for C-level math predicates so that they stay symbolic (solver-decided) instead of
+    realising their arguments"""
+    import math
+
+    def _isclose(a, b, *, rel_tol=1e-09, abs_tol=0.0):
+        if a == b:
+            return True
+        diff = abs(b - a)
+        return (diff <= abs(rel_tol * b)) or (diff <= abs(rel_tol * a)) or (diff <= abs_tol)
+    # CrossHair registers math.isclose as "realise the arguments"; replace that registration
+    _core._PATCH_REGISTRATIONS[math.isclose] = _isclose
+
+
+_install_math_models()
+
 STATS = {'queries': 0, 'solver_s': 0.0}
 _orig_sat = _ss.solver_is_sat
 if not getattr(_orig_sat, '_vf_timed', False):
